@@ -46,6 +46,15 @@ def model_cases(tier):
     import printer
     out, stats = [], {}
     runs = [("full", 1), ("plusonly", 1), ("methods", 1)] if tier == "quick" else [("full", 2), ("plusonly", 2), ("methods", 2)]
+    # TempLiveness.tla: the interleaving argument behind C06 -- safe under the code's numbering and storage
+    # discipline, and (non-vacuity of the model) unsafe under either of the two deviations
+    tl = vlib.run_model("TempLiveness", "MC_TempLiveness_ResetAtRoot_PerActivation.cfg", workers=4, timeout=600)
+    stats["TempLiveness_ResetAtRoot_PerActivation"] = {"states": tl["states"], "distinct": tl["distinct"], "programs": 0,
+                                                       "wall": round(tl["wall"], 1)}
+    for bad in ("ResetInChild_PerActivation", "ResetAtRoot_Shared"):
+        tb = vlib.run_model("TempLiveness", "MC_TempLiveness_%s.cfg" % bad, workers=4, timeout=600, expect_ok=False)
+        if tb["ok"]:
+            raise vlib.ToolError("TempLiveness.tla does not distinguish the %s deviation (vacuous model)" % bad)
     for cfgname, depth in runs:
         m = vlib.run_model("MC_Rewriter", "MC_Rewriter_%s_%d.cfg" % (cfgname, depth), workers=12, timeout=3000)
         stats["MC_Rewriter_%s_%d" % (cfgname, depth)] = {"states": m["states"], "distinct": m["distinct"],
